@@ -52,7 +52,7 @@ def conditions(tier):
                '0 <= cont_indent <= 1']
         fx['colon'] = True
         if quick:
-            pre += ['indent in (0, 4)', 'eol in (0, 2)', 'ret_ann in (-1, 0, 2, 7)', 'ret_desc in (0, 1, 4)', 'since <= 2',
+            pre += ['indent in (0, 4)', 'eol in (0, 2)', 'ret_ann in (-1, 0, 2, 7)', 'ret_desc in (0, 1, 6)', 'since <= 2',
                     'deprecated in (0, 3)']
         else:
             pre += ['0 <= indent < %d' % len(H.INDENTS), '0 <= eol < %d' % len(H.EOLS)]
